@@ -141,8 +141,8 @@ End Degenerate.
 Section Prefix.
   Variable P : cdm_par.
   Hypothesis gam_range : forall i k, 0 <= gam P i k.
-  Hypothesis pw_range : forall a, thr < a -> 0 <= pw P a.
-  Hypothesis pcap_range : forall k a, 0 <= pcap P k a <= 1.
+  Hypothesis pw_range : forall i k a, thr < a -> 0 <= pw P i k a.
+  Hypothesis pcap_range : forall i k a, 0 <= pcap P i k a <= 1.
   Hypothesis rel_range : forall k, 0 <= rel P k <= 1.
 
   (* the output of the first m pixels depends on the first m pixels only *)
@@ -203,4 +203,74 @@ Proof.
   intros. split; unfold cdm_params_ok.
   - reflexivity.
   - assert (E : Qltb 0 0 = false) by reflexivity. rewrite E. rewrite !andb_false_r. reflexivity.
+Qed.
+
+(* ------------------------------------------------------------------------------------------ CDM, any beta *)
+
+Definition par_ok (P : cdm_par) : Prop :=
+  (forall i k, 0 <= gam P i k) /\ (forall i k a, thr < a -> 0 <= pw P i k a)
+  /\ (forall i k a, 0 <= pcap P i k a <= 1) /\ (forall k, 0 <= rel P k <= 1).
+
+Lemma cdm_line0_ok : forall P nsp px, par_ok P -> nonneg px ->
+  let lo := fst (cdm_line P 0 px (repeat 0 nsp)) in
+  nonneg lo /\ length lo = length px /\ (forall m, qsum (firstn m lo) <= qsum (firstn m px)).
+Proof.
+  intros P nsp px (H1 & H2 & H3 & H4) Hp. cbv zeta.
+  destruct (repeat0 nsp) as [R1 R2].
+  pose proof (cdm_line_ok P H1 H2 H3 H4 px 0%nat (repeat 0 nsp) Hp R1) as (L1 & _ & L3 & _).
+  repeat split; try assumption. intros m.
+  pose proof (cdm_line_prefix P H1 H2 H3 H4 m px 0%nat (repeat 0 nsp) Hp R1). lra.
+Qed.
+
+(* every line with its own factors *)
+Lemma cdm_run_each_ok : forall Ps nsp lines, Forall par_ok Ps -> length Ps = length lines ->
+  Forall nonneg lines ->
+  Forall2 (fun li lo => nonneg lo /\ length lo = length li /\ (forall m, qsum (firstn m lo) <= qsum (firstn m li)))
+          lines (cdm_run_each Ps nsp lines).
+Proof.
+  induction Ps as [|P Ps IH]; intros nsp [|px lines] HP HL Hl; simpl in *; try discriminate; constructor.
+  - inversion HP; subst. inversion Hl; subst. apply cdm_line0_ok; assumption.
+  - inversion HP; subst. inversion Hl; subst. apply IH; try assumption. congruence.
+Qed.
+
+Lemma fac_ok_default : fac_ok (0, 0) = true.
+Proof. reflexivity. Qed.
+
+Lemma table_nth_ok : forall tbl i k, table_ok tbl = true -> fac_ok (nth k (nth i tbl []) (0, 0)) = true.
+Proof.
+  intros tbl i k H. unfold table_ok in H. rewrite forallb_forall in H.
+  destruct (nth_in_or_default i tbl []) as [Hin|E].
+  - specialize (H _ Hin). rewrite forallb_forall in H.
+    destruct (nth_in_or_default k (nth i tbl []) (0, 0)) as [Hin2|E2]; [apply H; exact Hin2 | rewrite E2; reflexivity].
+  - rewrite E. destruct k; reflexivity.
+Qed.
+
+(* the table instance (factors as numpy evaluates them, whatever they are, as long as they lie in their ranges)
+   meets the hypotheses of the CDM theorems *)
+Lemma cdm_par_table_ok : forall gs rs inj tbl,
+  nonneg gs -> Forall (fun r => 0 <= r <= 1) rs -> match inj with Some n => 0 <= n | None => True end ->
+  table_ok tbl = true -> par_ok (cdm_par_table gs rs inj tbl).
+Proof.
+  intros gs rs inj tbl Hg Hr Hi Ht. unfold par_ok. split; [|split; [|split]].
+  - intros i k. simpl. assert (0 <= nth k gs 0) by (apply (nth_range (fun x => 0 <= x)); [lra | exact Hg]).
+    assert (0 <= match inj with Some n => n | None => inject_Z (Z.of_nat i) end).
+    { destruct inj; [assumption|]. change 0 with (inject_Z 0). rewrite <- Zle_Qle. lia. }
+    nra.
+  - intros i k a _. simpl. pose proof (table_nth_ok tbl i k Ht) as F. unfold fac_ok in F.
+    repeat rewrite andb_true_iff in F. destruct F as [[F1 _] _]. apply Qle_bool_iff in F1. exact F1.
+  - intros i k a. simpl. pose proof (table_nth_ok tbl i k Ht) as F. unfold fac_ok in F.
+    repeat rewrite andb_true_iff in F. destruct F as [[_ F2] F3]. apply Qle_bool_iff in F2, F3. split; assumption.
+  - intros k. simpl. apply (nth_range (fun x => 0 <= x <= 1)); [lra | exact Hr].
+Qed.
+
+Lemma cdm_table_run_ok : forall gs rs inj tbls lines,
+  nonneg gs -> Forall (fun r => 0 <= r <= 1) rs -> match inj with Some n => 0 <= n | None => True end ->
+  forallb table_ok tbls = true -> length tbls = length lines -> Forall nonneg lines ->
+  Forall2 (fun li lo => nonneg lo /\ length lo = length li /\ (forall m, qsum (firstn m lo) <= qsum (firstn m li)))
+          lines (cdm_run_each (map (cdm_par_table gs rs inj) tbls) (length gs) lines).
+Proof.
+  intros gs rs inj tbls lines Hg Hr Hi Ht HL Hl. apply cdm_run_each_ok; try assumption.
+  - rewrite forallb_forall in Ht. apply Forall_forall. intros P HP. apply in_map_iff in HP as (tbl & E & Hin).
+    subst P. apply cdm_par_table_ok; try assumption. apply Ht; exact Hin.
+  - rewrite map_length. exact HL.
 Qed.
